@@ -115,6 +115,20 @@ CHECKS = {
         note='Known finding C09-stats-bytes-include-descriptor (stats bytes = written total + size of datapackage.json) is matched by its own deviation formula only. Three genuine defects were repaired (fix: commits).',
         technique='TLA+ counter model checked with TLC; TLC-enumerated configurations replayed on the real dumpers; recorded vs measured facts validated by a TLC trace spec',
         design='6/C09', specs=['DumpStats.tla', 'MC_DumpCases.tla', 'DumpStatsTrace.tla']),
+    'C07': dict(
+        level='model_checking',
+        text='CheckpointChain.tla models histories of Run / DeleteDir over K chained checkpoints (a run resumes from the last checkpoint whose '
+             'file exists, executes only the segments after it, rewrites the checkpoints after it); TLC checks ResumeSkipsUpstream, '
+             'LastWritten, FirstRunComputes, DeleteRecomputes and exports every history (K=1,2 length<=5; thorough K<=3 length<=6), each '
+             'replayed with freshly constructed Flows: per run the executed segments (side-effect counters), the result (= first run) and the '
+             'checkpoint files must be the model\'s. Ejson.tla specifies the typed-cell codec (RoundTrip over a boundary catalogue of '
+             'offsets -12h..+14h, years 1..9999, microseconds - the pinned unsigned-offset and second-precision variants are shown to violate '
+             'it); ~1300 (quick) typed cells from a catalogue + seeded random tables (decimals, dates, times, naive/aware datetimes, '
+             'durations, nested arrays/objects, unicode) go through a real first run and a resumed run and TLC checks, per cell, value out = '
+             'value in, bytes written = Encode(in), value out = Decode(bytes).',
+        note='Run = fresh Flow construction. Value domain beyond the catalogue is sampled (seeded), judged by the spec\'s equations; string/int/bool/decimal text is compared as code points.',
+        technique='TLA+ history model checked with TLC and every history replayed; TLA+ codec spec checked on a boundary catalogue; TLC trace validation of cells recorded from real first/resumed runs',
+        design='6/C07', specs=['CheckpointChain.tla', 'Checkpoint.tla', 'Ejson.tla', 'EjsonTrace.tla']),
 }
 
 NOT_YET = 'check not built yet (build in progress, see DESIGN.md section 10)'
